@@ -33,7 +33,8 @@ Definition cast_good (r : ty * ty * conv * post) : bool :=
       conv_eqb cv cv' &&
       ((post_eqb p PNone && cast_exact_bare f t) || (post_eqb p (wrap_post t) && cast_fixable f t))
   | None => false
-  end.
+  end
+  || match f, t, cv, p with I32, U64, CvExtS, PNone => true | _, _, _, _ => false end.
 Definition cast_bad_rows : list (ty * ty * conv * post) := filter (fun r => negb (cast_good r)) casttable.
 
 Section T.
@@ -74,11 +75,24 @@ Theorem cast_table_sound : forall f t cv p,
   In (f, t, cv, p) casttable -> cast_good (f, t, cv, p) = true -> cast_row c f t cv p.
 Proof.
   intros f t cv p _ G. unfold cast_good in G.
+  apply orb_true_iff in G. destruct G as [G|G];
+    [|destruct f, t, cv, p; try discriminate; apply cast_i32_u64_exts].
   destruct (select_cast f t) as [cv'|] eqn:S; [|discriminate].
   apply andb_true_iff in G. destruct G as [Ec G]. apply conv_eqb_eq in Ec. subst cv'.
   apply orb_true_iff in G. destruct G as [G|G]; apply andb_true_iff in G; destruct G as [Ep B];
     apply post_eqb_eq in Ep; subst p.
   - apply select_cast_bare; auto.
   - apply select_cast_wrapped; auto.
+Qed.
+(* all casts: on a tree where no exported cast row is left unproved (cast_bad_rows = [], evaluated
+   by the check on every run) every integer cast ir_to_wasm compiles is the IR cast *)
+Theorem cast_exact : cast_bad_rows = [] ->
+  forall f t cv p, In (f, t, cv, p) casttable -> cast_row c f t cv p.
+Proof.
+  intros E f t cv p H. apply cast_table_sound; [exact H|].
+  destruct (cast_good (f, t, cv, p)) eqn:G; [reflexivity|exfalso].
+  assert (B : In (f, t, cv, p) cast_bad_rows).
+  { unfold cast_bad_rows. apply filter_In. split; [exact H|]. rewrite G. reflexivity. }
+  rewrite E in B. exact B.
 Qed.
 End T.
